@@ -1,0 +1,306 @@
+//! Verification hooks. Compiled only with `--cfg mini_moka_verif`; nothing here is
+//! part of the public API of a normal build.
+//!
+//! - `VerifClock`: a mock expiration clock reachable from outside the crate.
+//! - Read-only snapshot types for both caches.
+//! - Facades over the crate-private `FrequencySketch` and `Deque`.
+
+use crate::common::{
+    deque::{DeqNode, Deque},
+    frequency_sketch::FrequencySketch,
+    time::{clock::Mock, Clock, Instant},
+    CacheRegion,
+};
+
+use std::{collections::HashMap, ptr::NonNull, sync::Arc, time::Duration};
+
+pub struct VerifClock {
+    mock: Arc<Mock>,
+    base: std::time::Instant,
+}
+
+impl Default for VerifClock {
+    fn default() -> Self {
+        Self::new()
+    }
+}
+
+impl VerifClock {
+    pub fn new() -> Self {
+        let mock = Arc::new(Mock::default());
+        let base = mock.verif_now();
+        Self { mock, base }
+    }
+
+    pub(crate) fn clock(&self) -> Clock {
+        Clock::verif_from_mock(Arc::clone(&self.mock))
+    }
+
+    pub fn advance(&self, d: Duration) {
+        self.mock.verif_increment(d);
+    }
+
+    /// Nanoseconds since the clock was created.
+    pub fn now_ns(&self) -> u64 {
+        self.mock.verif_now().duration_since(self.base).as_nanos() as u64
+    }
+
+    pub(crate) fn ns(&self, t: Instant) -> u64 {
+        t.verif_std().duration_since(self.base).as_nanos() as u64
+    }
+}
+
+#[derive(Clone, Debug)]
+pub struct SketchSnap {
+    pub enabled: bool,
+    pub size: u32,
+    pub sample_size: u32,
+    pub table_mask: u32,
+    pub table: Vec<u64>,
+}
+
+#[derive(Clone, Debug)]
+pub struct AoNodeSnap<K> {
+    pub addr: usize,
+    pub key: K,
+    pub hash: u64,
+    /// unsync: the node's own timestamp; sync: `last_accessed` of the node's entry info.
+    pub ts: Option<u64>,
+    /// sync: address of the node's entry info; unsync: 0.
+    pub info: usize,
+}
+
+#[derive(Clone, Debug)]
+pub struct WoNodeSnap<K> {
+    pub addr: usize,
+    pub key: K,
+    pub ts: Option<u64>,
+    pub info: usize,
+}
+
+#[derive(Clone, Debug)]
+pub struct EntrySnap<K, V> {
+    pub key: K,
+    pub value: V,
+    pub weight: u32,
+    pub last_accessed: Option<u64>,
+    pub last_modified: Option<u64>,
+    pub ao_node: Option<usize>,
+    pub ao_region: Option<usize>,
+    pub wo_node: Option<usize>,
+    pub admitted: bool,
+    pub dirty: bool,
+    pub info: usize,
+    pub key_obj: usize,
+}
+
+#[derive(Clone, Debug)]
+pub struct UnsyncSnap<K, V> {
+    pub entry_count: u64,
+    pub weighted_size: u64,
+    pub entries: Vec<EntrySnap<K, V>>,
+    pub window: Vec<AoNodeSnap<K>>,
+    pub probation: Vec<AoNodeSnap<K>>,
+    pub protected: Vec<AoNodeSnap<K>>,
+    pub write_order: Vec<WoNodeSnap<K>>,
+    pub sketch: SketchSnap,
+    pub structure_error: Option<String>,
+}
+
+#[derive(Clone, Debug)]
+pub struct SyncSnap<K, V> {
+    pub entry_count: u64,
+    pub weighted_size: u64,
+    pub entries: Vec<EntrySnap<K, V>>,
+    pub window: Vec<AoNodeSnap<K>>,
+    pub probation: Vec<AoNodeSnap<K>>,
+    pub protected: Vec<AoNodeSnap<K>>,
+    pub write_order: Vec<WoNodeSnap<K>>,
+    pub sketch: SketchSnap,
+    pub structure_error: Option<String>,
+    pub read_q_len: usize,
+    pub write_q_len: usize,
+    pub valid_after: Option<u64>,
+    pub hk_running: bool,
+    pub hk_sync_after: Option<u64>,
+}
+
+/// Facade over the crate-private popularity estimator.
+#[derive(Default)]
+pub struct VerifSketch(FrequencySketch);
+
+impl VerifSketch {
+    pub fn new() -> Self {
+        Self::default()
+    }
+
+    pub fn ensure_capacity(&mut self, cap: u32) {
+        self.0.ensure_capacity(cap)
+    }
+
+    pub fn increment(&mut self, hash: u64) {
+        self.0.increment(hash)
+    }
+
+    pub fn frequency(&self, hash: u64) -> u8 {
+        self.0.frequency(hash)
+    }
+
+    pub fn snapshot(&self) -> SketchSnap {
+        self.0.verif_snapshot()
+    }
+
+    pub fn sketch_capacity(max_capacity: u64) -> u32 {
+        crate::common::sketch_capacity(max_capacity)
+    }
+}
+
+/// Facade over the crate-private intrusive list, holding `u64` elements. Nodes are
+/// addressed by the element value they were created with (the caller keeps them
+/// unique); the facade keeps the raw node pointers exactly like the caches do.
+pub struct VerifDeque {
+    deq: Deque<u64>,
+    nodes: HashMap<u64, NonNull<DeqNode<u64>>>,
+}
+
+impl Default for VerifDeque {
+    fn default() -> Self {
+        Self::new()
+    }
+}
+
+impl VerifDeque {
+    pub fn new() -> Self {
+        Self {
+            deq: Deque::new(CacheRegion::MainProbation),
+            nodes: HashMap::new(),
+        }
+    }
+
+    pub fn knows(&self, id: u64) -> bool {
+        self.nodes.contains_key(&id)
+    }
+
+    /// Allocates a node for `id` and links it at the back.
+    pub fn push_back(&mut self, id: u64) {
+        let p = self.deq.push_back(Box::new(DeqNode::new(id)));
+        self.nodes.insert(id, p);
+    }
+
+    pub fn pop_front(&mut self) -> Option<u64> {
+        let n = self.deq.pop_front();
+        n.map(|b| {
+            self.nodes.remove(&b.element);
+            b.element
+        })
+    }
+
+    pub fn peek_front(&self) -> Option<u64> {
+        self.deq.peek_front().map(|n| n.element)
+    }
+
+    /// `contains` on a node that is linked in this list or was unlinked (not dropped).
+    pub fn contains(&self, id: u64) -> Option<bool> {
+        self.nodes
+            .get(&id)
+            .map(|p| self.deq.contains(unsafe { p.as_ref() }))
+    }
+
+    pub fn move_to_back(&mut self, id: u64) -> bool {
+        match self.nodes.get(&id) {
+            Some(p) if self.deq.contains(unsafe { p.as_ref() }) => {
+                unsafe { self.deq.move_to_back(*p) };
+                true
+            }
+            _ => false,
+        }
+    }
+
+    pub fn move_front_to_back(&mut self) {
+        self.deq.move_front_to_back()
+    }
+
+    /// Unlinks without dropping; the node stays known to the facade (unlinked).
+    pub fn unlink(&mut self, id: u64) -> bool {
+        match self.nodes.get(&id) {
+            Some(p) if self.deq.contains(unsafe { p.as_ref() }) => {
+                unsafe { self.deq.unlink(*p) };
+                true
+            }
+            _ => false,
+        }
+    }
+
+    /// Re-links a node previously unlinked with `unlink`.
+    pub fn relink_back(&mut self, id: u64) -> bool {
+        match self.nodes.get(&id) {
+            Some(p) if !self.deq.contains(unsafe { p.as_ref() }) => {
+                let b = unsafe { Box::from_raw(p.as_ptr()) };
+                let p2 = self.deq.push_back(b);
+                self.nodes.insert(id, p2);
+                true
+            }
+            _ => false,
+        }
+    }
+
+    pub fn unlink_and_drop(&mut self, id: u64) -> bool {
+        match self.nodes.get(&id) {
+            Some(p) if self.deq.contains(unsafe { p.as_ref() }) => {
+                unsafe { self.deq.unlink_and_drop(*p) };
+                self.nodes.remove(&id);
+                true
+            }
+            _ => false,
+        }
+    }
+
+    pub fn next_of(&self, id: u64) -> Option<Option<u64>> {
+        self.nodes
+            .get(&id)
+            .map(|p| DeqNode::next_node_ptr(*p).map(|n| unsafe { n.as_ref() }.element))
+    }
+
+    /// One step of the cursor-based iterator.
+    pub fn iter_next(&mut self) -> Option<u64> {
+        (&mut self.deq).next().copied()
+    }
+
+    pub fn len(&self) -> usize {
+        self.deq.verif_len()
+    }
+
+    pub fn is_empty(&self) -> bool {
+        self.len() == 0
+    }
+
+    /// (elements front to back, cursor state, cursor element) or a structure error.
+    pub fn dump(&self) -> Result<(Vec<u64>, u8, Option<u64>), String> {
+        let v = self.deq.verif_walk()?;
+        let (cs, caddr) = self.deq.verif_cursor();
+        let cur = if cs == 1 {
+            v.iter().find(|(a, _)| *a == caddr).map(|(_, e)| **e)
+        } else {
+            None
+        };
+        if cs == 1 && cur.is_none() {
+            return Err("cursor points outside the list".to_string());
+        }
+        Ok((v.into_iter().map(|(_, e)| *e).collect(), cs, cur))
+    }
+}
+
+impl Drop for VerifDeque {
+    fn drop(&mut self) {
+        // Free nodes that were unlinked but not dropped (the list frees the linked ones).
+        let linked: std::collections::HashSet<usize> = match self.deq.verif_walk() {
+            Ok(v) => v.into_iter().map(|(a, _)| a).collect(),
+            Err(_) => return,
+        };
+        for p in self.nodes.values() {
+            if !linked.contains(&(p.as_ptr() as usize)) {
+                unsafe { drop(Box::from_raw(p.as_ptr())) };
+            }
+        }
+    }
+}
